@@ -85,6 +85,17 @@ int ares_parse_aaaa_reply(const unsigned char *abuf, int alen,
     if (status != ARES_SUCCESS && status != ARES_ENODATA) {
       goto fail; /* LCOV_EXCL_LINE: DefensiveCoding */
     }
+  } else if (status == ARES_SUCCESS && ai.cnames == NULL) {
+    /* Report the same as when a hostent is requested: an answer holding
+     * neither an address of this family nor an alias is ARES_ENODATA */
+    const struct ares_addrinfo_node *node = ai.nodes;
+
+    while (node != NULL && node->ai_family != AF_INET6) {
+      node = node->ai_next;
+    }
+    if (node == NULL) {
+      status = ARES_ENODATA;
+    }
   }
 
   if (addrttls != NULL && req_naddrttls) {
